@@ -115,4 +115,31 @@ theorem accepted_whatever_the_layout (T : Table) (t1 t2 : Bytes) (l1 : Lex.Resul
   obtain ⟨l2, h2, he2, hk⟩ := lex_of_sweave _ _ hw
   exact same_tokens_same_tree T t1 t2 l1 l2 h1 h2 he2 hk.symm prev1 prev2 r h
 
+/-- a layout normal form: every token on a line of its own -/
+def onePerLine (toks : List Tok) : Bytes := toks.flatMap (fun t => t.text ++ [10])
+
+theorem sweave_onePerLine (toks : List Tok) (hg : ∀ t ∈ toks, GTok t) : SWeave (toks.map kt) (onePerLine toks) := by
+  induction toks with
+  | nil => exact SWeave.nil [] (by intro c hc; simp at hc)
+  | cons t ts ih =>
+    have ih' := ih (fun x hx => hg x (by simp [hx]))
+    have hr : SWeave (ts.map kt) (10 :: onePerLine ts) := by
+      have := ih'.prepend [10] (by intro c hc; simp at hc; subst hc; decide)
+      simpa using this
+    have hsep : Sep t.kind (10 :: onePerLine ts) := by
+      have h1 : HeadSep (10 :: onePerLine ts) := by
+        intro c r h; simp only [List.cons.injEq] at h; rw [← h.1]; decide
+      have h2 : HeadLF (10 :: onePerLine ts) := by
+        intro c r h; simp only [List.cons.injEq] at h; exact h.1.symm
+      cases hk : t.kind <;> simp [Lex.Sep, h1, h2]
+    have := SWeave.cons [] (by intro x hx; simp at hx) t.kind t.text (ts.map kt) (10 :: onePerLine ts) (hg t (by simp)) hsep hr
+    simpa [onePerLine, kt, List.flatMap_cons, List.append_assoc] using this
+
+/-- **one token per line**: the tokens of an accepted script (comments included), each written on a line of its own, are
+    accepted with the same tree -/
+theorem accepted_one_token_per_line (T : Table) (t1 : Bytes) (l1 : Lex.Result) (h1 : lex t1 = some l1)
+    (prev1 prev2 : PState) (r : List Node) (h : parse T t1 prev1 = .accept r) :
+    parse T (onePerLine l1.toks) prev2 = .accept r :=
+  accepted_whatever_the_layout T t1 _ l1 h1 (sweave_onePerLine l1.toks (lex_genuine t1 l1 h1)) prev1 prev2 r h
+
 end Layout
